@@ -7,11 +7,16 @@ args = sys.argv[1:]
 tier = "quick"
 if "--tier" in args:
     i = args.index("--tier"); tier = args[i + 1]; del args[i:i + 2]
+start = None
+if "--from" in args:
+    i = args.index("--from"); start = args[i + 1]; del args[i:i + 2]
 sel = args[0] if args else ""
 head = subprocess.check_output(["git", "-C", "/repo", "log", "--format=%h", "-1"]).decode().strip()
 for name in sorted(os.listdir(os.path.join(HERE, "seeded"))):
     d = os.path.join(HERE, "seeded", name)
     if sel not in name or not os.path.exists(os.path.join(d, "patch.diff")):
+        continue
+    if start and name < start:
         continue
     meta = json.load(open(os.path.join(d, "meta.json")))
     prop = meta["property"]
@@ -24,6 +29,8 @@ for name in sorted(os.listdir(os.path.join(HERE, "seeded"))):
     m = re.search(r"MUTANT exit=(\d+)", out)
     code = int(m.group(1)) if m else None
     status = "detected" if code == 1 and keys else ("missed" if code == 0 else "error")
+    if "FAILED -- saving rejects" in out or "patch" in out and "returned non-zero exit status" in out:
+        status = "patch-does-not-apply"
     meta["detected_by"] = dict(check="./check %s --tier %s" % (prop, tier), status=status, exit=code, violation_keys=keys, repo_head=head)
     json.dump(meta, open(os.path.join(d, "meta.json"), "w"), indent=1)
     print("%-45s %-9s exit=%s %s" % (name, status, code, keys[:3]), flush=True)
